@@ -134,6 +134,7 @@ type World struct {
 	doneRecs        int
 	probe           *clientState
 	Panics          []string
+	FineClock       bool // never let the clock hop far while tasks may become eligible (electors)
 	inflight        map[string]*Rec
 	probeIdx        int
 	probeW          int
@@ -376,6 +377,11 @@ func (w *World) sleepQuantum() time.Duration {
 	}
 	if min > time.Minute {
 		min = time.Minute
+	}
+	if w.FineClock && min > 200*time.Millisecond {
+		// something with deadlines on the simulated clock is running (an elector renewing its lease):
+		// a task that becomes eligible during a long hop would find its deadline already expired
+		min = 200 * time.Millisecond
 	}
 	return min
 }
